@@ -1,4 +1,5 @@
 import Pendulum.Proofs.Dur
+import Pendulum.Proofs.DurGen
 import Pendulum.Model.DurFloat
 /-! # C10 — Duration arithmetic agrees with timedelta arithmetic
 
@@ -236,5 +237,29 @@ example : (Fl.mulIntF (Fl.mk { us := -8489915151491 }) 482).native = Td.mulInt (
 example : (Fl.negF (Fl.mk { s := 8589934592, us := 1 }).1).native = Td.neg 8589934592000001 - 1 := by decide
 /-- … while on the float-exact range the two models agree (instances; the general statement is the float-bridge assumption) -/
 example : (Fl.addF (Fl.mk { us := 2147483647999999 }).1 (-999999)).native = Td.add 2147483647999999 (-999999) := by decide
+
+/-! ## tie to the source: the generated translation of the arithmetic helpers
+
+`Pendulum.Gen.Duration` is regenerated from /repo/src/pendulum/duration.py (tools/gen_duration.py) on every run. -/
+
+/-- `_divide_and_round(a, b)` as written in the source is `divide_nearest` (round half to even) of the native
+    implementation, for every integer pair — including negative and zero divisors -/
+theorem divide_and_round_source_eq_model (a b : Int) : Gen.Duration.divide_and_round a b = Td.divNear a b :=
+  DurGen.divide_and_round_eq a b
+example : Gen.Duration.divide_and_round 5 2 = 2 ∧ Gen.Duration.divide_and_round 7 2 = 4 ∧
+    Gen.Duration.divide_and_round (-5) 2 = -2 ∧ Gen.Duration.divide_and_round 5 (-2) = -2 := by decide
+
+/-- the operand lengths used by `+`/`-` (`_native_microseconds`) and by `//`, `/`, `%`, `divmod`
+    (`_to_microseconds`), as written in the source: for a Duration they are the model's native value and `toUs`;
+    for a plain timedelta both return its exact length -/
+theorem operand_lengths_source_eq_model (a : Args) (n : Int) :
+    Gen.Duration.native_microseconds (mk a).years (mk a).months (mk a).days (mk a).seconds (mk a).micros
+      = (mk a).native ∧
+    Gen.Duration.to_microseconds (mk a).days (mk a).seconds (mk a).micros = toUs (mk a) ∧
+    Gen.Duration.td_native_microseconds (Td.days n) (Td.seconds n) (Td.micros n) = n ∧
+    Gen.Duration.td_to_microseconds (Td.days n) (Td.seconds n) (Td.micros n) = n :=
+  ⟨DurGen.native_microseconds_eq a, DurGen.to_microseconds_eq (mk a), DurGen.td_native_microseconds_eq n,
+   DurGen.td_to_microseconds_eq n⟩
+example : Gen.Duration.td_native_microseconds (-1) 86399 999999 = -1 := by decide
 
 end Pendulum.Props.C10
